@@ -17,6 +17,8 @@ import Driver.StateDb
 import Driver.Prestate
 import Driver.Bundle
 import Driver.Util
+import Driver.Interp
+import Driver.Evm
 import Driver.EvmLifecycle
 import Driver.TxValidate
 import Driver.InspectorHooks
@@ -29,7 +31,6 @@ import Driver.OpFees
 import Driver.AccessTx
 import Driver.AccessSets
 import Driver.InspectorWrap
-import Driver.Interp
 /-! Line-protocol driver: one request per line on stdin, one reply per line on stdout.
 Stateless components are dispatched on the first token. A stateful component `X` adds a field
 `x : Driver.X.St := Driver.X.St.init` to `DState`, resets it on `begin x …` and threads it through
@@ -46,6 +47,8 @@ structure DState where
   statedb : StateDb.St := {}
   prestate : Prestate.St := {}
   bundle : Driver.Bundle.St := Driver.Bundle.St.init
+  interp : Driver.Interp.St := Driver.Interp.St.init
+  evm : Driver.Evm.St := Driver.Evm.St.init
   lc : Driver.EvmLifecycle.St := Driver.EvmLifecycle.St.init
   txv : Driver.TxValidate.St := {}
   hooks : Driver.InspectorHooks.St := Driver.InspectorHooks.St.init
@@ -53,7 +56,6 @@ structure DState where
   frame : Driver.Frame.St := Driver.Frame.St.init
   ether : Driver.Ether.St := Driver.Ether.St.init
   acc : Driver.AccessSets.St := Driver.AccessSets.St.init
-  interp : Driver.Interp.St := Driver.Interp.St.init
   -- stateful component states go here
 
 def step (st : DState) (line : String) : DState × String :=
@@ -85,6 +87,11 @@ def step (st : DState) (line : String) : DState × String :=
   | "pst" :: r => let (s, out) := Prestate.handle st.prestate r; ({ st with prestate := s }, out)
   | "begin" :: "bundle" :: r => let (b, out) := Bundle.handleBegin r; ({ st with bundle := b }, out)
   | "bundle" :: r => let (b, out) := Bundle.handle st.bundle r; ({ st with bundle := b }, out)
+  | "begin" :: "interp" :: r => let (s, o) := Driver.Interp.begin r; ({ st with interp := s }, o)
+  | "i" :: r => let (s, o) := Driver.Interp.handle st.interp r; ({ st with interp := s }, o)
+  | "interp" :: r => (st, Driver.Interp.handleStateless r)
+  | "begin" :: "evm" :: r => let (s, o) := Driver.Evm.begin r; ({ st with evm := s }, o)
+  | "evm" :: r => let (s, o) := Driver.Evm.handle st.evm r; ({ st with evm := s }, o)
   | "begin" :: "lc" :: r => let (s, out) := Driver.EvmLifecycle.begin r; ({ st with lc := s }, out)
   | "lc" :: r => let (s, out) := Driver.EvmLifecycle.handle st.lc r; ({ st with lc := s }, out)
   | "txv" :: r => (st, TxValidate.handle r)
@@ -108,10 +115,7 @@ def step (st : DState) (line : String) : DState × String :=
   | "begin" :: "acc" :: r => let (s, out) := Driver.AccessSets.begin r; ({ st with acc := s }, out)
   | "a" :: r => let (s, out) := Driver.AccessSets.handle st.acc r; ({ st with acc := s }, out)
   | "inspwrap" :: r => (st, InspectorWrap.handle r)
-  | "begin" :: "interp" :: r => let (s, o) := Driver.Interp.begin r; ({ st with interp := s }, o)
   | "begin" :: "eof" :: r => let (s, o) := Driver.Interp.beginEof r; ({ st with interp := s }, o)
-  | "i" :: r => let (s, o) := Driver.Interp.handle st.interp r; ({ st with interp := s }, o)
-  | "interp" :: r => (st, Driver.Interp.handleStateless r)
   | _ => (st, "bad-op")
 
 partial def loop (hin hout : IO.FS.Stream) (st : DState) : IO Unit := do
